@@ -395,7 +395,7 @@ def low_rank_root(ctx):
     E = eg[0]
     e0, u = T('sub', E, const(0)), T('sub', E, const(1))
     P = lambda nm: sym('param', fi.short, nm)
-    env = {'e0': e0, 'u': u, 'r': P('compression_rank'), 'p': P('p'), 'ps': P('padding_start'), 'd': ev.last_scope.vars.get('d', NONE)}
+    env = {'e0': e0, 'u': u, 'r': P('compression_rank'), 'p': P('p'), 'ps': P('padding_start'), 'd': spec_term(ev, 'matrix.shape[0]', {'matrix': P('matrix')})}
     mx = [x for x in walk(a['eigvals']) if is_ext_call(x, 'jax.numpy.maximum')]
     ridge = None
     for x in mx:
